@@ -268,7 +268,21 @@ func NewRepTarget(state, dir string, r *vk.Rand) (*RepTarget, error) {
 		return nil, fmt.Errorf("state %s: %v", state, err)
 	}
 	router := rrest.NewRouter(rrest.NewServer(s))
-	t := &Target{Name: "replica", Router: router, Liveness: "/v1/replicas/1", TryLock: s.TryLock, Unlock: s.Unlock,
+	// "no lock is left held" covers both mutexes a request can take: the server's and the one of the Replica object
+	tryBoth := func() bool {
+		if !s.TryLock() {
+			return false
+		}
+		if rp := s.Replica(); rp != nil {
+			if !rp.TryLock() {
+				s.Unlock()
+				return false
+			}
+			rp.Unlock()
+		}
+		return true
+	}
+	t := &Target{Name: "replica", Router: router, Liveness: "/v1/replicas/1", TryLock: tryBoth, Unlock: s.Unlock,
 		Digest: func() string {
 			h, _ := fsx.DirHash(dir, map[string]bool{"log.info": true})
 			st, info := s.Status()
